@@ -598,6 +598,13 @@ func specTruth(opname string, cell mcell) (bool, bool) {
 }
 
 func ruleC12(prog *Program, rep *Report) {
+	ruleTruthMatrix(prog, rep)
+	ruleRadix(prog, rep)
+	rulePresenceByNil(prog, rep) // a null member must reach the operators as null, not as Nothing
+}
+
+// ruleTruthMatrix: M-truth and M-table (shared by C12 and C05).
+func ruleTruthMatrix(prog *Program, rep *Report) {
 	rep.Explain("C12 decides the exact truth table of the comparison, logic and has/exists operators: each operator arm of the script evaluator touches its operands only through type switches, assertions and comparisons, so it is evaluated abstractly over kind(left) x kind(right) x order (kinds nil, true, false, int, float, string, list, map, Nothing; order <,=,> where both are numbers or both strings; float64(int) assumed order preserving) with Go's interface-== rule (different dynamic types: false; same uncomparable type: panic), and compared cell by cell with the documented semantics. Also: every operator in the operator table has an arm; the table maps each spelling to the operator with that spelling. Not covered: multi-valued sub-path expansion, Script.Match vs filter membership, regex operators, arithmetic results, parse precedence.")
 	rep.Rules = append(rep.Rules,
 		"M-truth: for ==, !=, <, <=, >, >=, &&, ||, !, has, exists the abstractly evaluated result of the operator's arm equals the specification in every cell of the kind x kind x order matrix, and no cell panics",
@@ -824,8 +831,6 @@ func ruleC12(prog *Program, rep *Report) {
 	if cells < 900 {
 		rep.Errorf("M-truth evaluated %d cells (floor 900)", cells)
 	}
-	ruleRadix(prog, rep)
-	rulePresenceByNil(prog, rep) // a null member must reach the operators as null, not as Nothing
 }
 
 // ruleRadix: multi-valued operands are enumerated as a mixed-radix number: the
